@@ -446,7 +446,7 @@ fn run(e: &Engine) {
     // one must scale by the table's factor, any other must be rejected); longer strings for the two
     // quantities with the most multiplier prefixes in the thorough tier
     const LETTERS: &[u8] = b"ABCDEFGHIJKLMNOPQRSTUVWXYZ";
-    let all_len = if cfg!(debug_assertions) { e.tier.pick(3usize, 4) } else { e.tier.pick(5usize, 6) };
+    let all_len = if cfg!(debug_assertions) { e.tier.pick(3usize, 4) } else { 6 };
     let part = crate::gen::enumstr::Partitioned { alpha: LETTERS, max_len: all_len, prefix_len: 2 };
     let partr = &part;
     e.enumerate::<Case, _, _>(
@@ -458,8 +458,8 @@ fn run(e: &Engine) {
         },
         check,
     );
-    if !cfg!(debug_assertions) {
-        let long_len = e.tier.pick(6usize, 7);
+    if e.tier == crate::engine::Tier::Thorough && !cfg!(debug_assertions) {
+        let long_len = 7usize;
         let long = crate::gen::enumstr::Partitioned { alpha: LETTERS, max_len: long_len, prefix_len: 3 };
         let longr = &long;
         let qs = [Q::ElectricPotential, Q::Frequency];
